@@ -156,11 +156,43 @@ def interesting(spec):
 
 
 def run(case, rec):
+    cwd, home = os.getcwd(), os.environ.get("HOME")
+    try:
+        return _run(case, rec)
+    finally:
+        os.chdir(cwd)
+        if home is None:
+            os.environ.pop("HOME", None)
+        else:
+            os.environ["HOME"] = home
+
+
+def _run(case, rec):
     spec, sort = case["spec"], case["sort"]
     with tempfile.TemporaryDirectory(prefix="verif_c19_") as tmp:
-        root = os.path.join(tmp, "root")
+        # the folder's own name is the caller's business too: "~" and "~name" are legal directory names
+        root_name = case.get("root_name", "root")
+        root = os.path.join(tmp, root_name)
         os.mkdir(root)
+        if case.get("many"):
+            # one folder with MANY entries, every seventh a sub-directory (their names interleave with the files')
+            spec = dict(spec, files=list(spec["files"]), dirs=list(spec["dirs"]))
+            for i in range(case["many"]):
+                nm = f"e{i:03}"
+                if i % 7 == 3:
+                    spec["dirs"].append({"name": nm, "files": [], "dirs": []})
+                else:
+                    spec["files"].append([nm, 0, 1_600_000_000 + i])
+            rec.cls("folder-with-many-entries")
         materialise(spec, root)
+        scan_arg = root
+        if case.get("relative"):
+            # a relative path argument is resolved against the current directory (and taken literally)
+            os.mkdir(os.path.join(tmp, "home"))
+            os.environ["HOME"] = os.path.join(tmp, "home")
+            os.chdir(tmp)
+            scan_arg = root_name if case["relative"] == "plain" else os.path.join(".", root_name)
+            rec.cls("relative-path-argument")
         if case.get("specials"):
             # directory members that are neither a file nor a directory (a named pipe, a symlink that points nowhere):
             # they are no nodes of the tree, with sorting on or off
@@ -187,7 +219,7 @@ def run(case, rec):
         if case.get("links") and not case.get("rescan"):
             if add_hard_links(spec, root, case["links"]):
                 rec.cls("hard-links")
-        tree = load_tree_from_fs(root, sort=sort) if case.get("sort_kw", True) else load_tree_from_fs(root)
+        tree = load_tree_from_fs(scan_arg, sort=sort) if case.get("sort_kw", True) else load_tree_from_fs(scan_arg)
         if not case.get("sort_kw", True):
             sort = True  # documented default
         rec.evals += 1
@@ -247,7 +279,7 @@ def run(case, rec):
                 if later != scanned:
                     rec.fail("scan:tree-changed-when-the-disk-changed", {"scanned": scanned, "later": later})
                     return
-            tree = load_tree_from_fs(root, sort=sort)
+            tree = load_tree_from_fs(scan_arg, sort=sort)
             rec.evals += 1
             rec.cls("rescan-after-modification")
             compare(rec, spec, root, list(tree.children), sort, "rescan")
@@ -290,6 +322,9 @@ def dir_spec(draw, depth, name="root"):
         else:
             size = draw(st.sampled_from([0, 0, 1, 7, 100, 4096, 5000]))
             mtime = 1_500_000_000 + draw(st.integers(0, 10**8)) + draw(st.sampled_from([0.0, 0.5, 0.123456, 0.25]))
+            if draw(st.sampled_from([0] * 5 + [1])):
+                # an old file (restored from an archive): small time stamps carry more decimals in a float
+                mtime = draw(st.sampled_from([12345.000000123, 100_000_000.1234567, 2**29 - 5 + 0.9999999, 0.5, 86400 * 365.25 * 10 + 0.0000004]))
             files.append([nm, size, mtime])
     return {"name": name, "files": files, "dirs": dirs}
 
@@ -307,6 +342,12 @@ def hyp_cases(draw, tier):
         case["links"] = draw(st.lists(st.tuples(st.integers(0, 20), st.integers(0, 10), st.sampled_from(["link1", "Zlink", "a.lnk"])).map(list), min_size=1, max_size=3))
     if draw(st.sampled_from([0, 0, 1])):
         case["specials"] = draw(st.lists(st.tuples(st.integers(0, 10), st.sampled_from(["fifo", "dangling"]), st.sampled_from(["pipe0", "Zz.sock", "a.lnk2"])).map(list), min_size=1, max_size=3))
+    if draw(st.sampled_from([0, 0, 0, 1])):
+        case["root_name"] = draw(st.sampled_from(["~", "~verif", "r t", "~root"]))
+    if draw(st.sampled_from([0, 0, 1])):
+        case["relative"] = draw(st.sampled_from(["plain", "dot"]))
+    if draw(st.sampled_from([0] * 9 + [1])):
+        case["many"] = draw(st.sampled_from([130, 140, 200, 260]))
     if draw(st.sampled_from([0, 1])):
         case["rescan"] = True
         if draw(st.sampled_from([0, 1])):
